@@ -28,15 +28,25 @@ OBLIGATIONS = [
     "Grog.C01.hit_same_state",
     "Grog.C01.alias_skipped_witness",
     "Grog.C01.dir_restore_exact_and_stale_witness",
+    "Grog.Compose.goodK_real",
+    "Grog.Compose.cacheSoundK_preserved",
+    "Grog.Compose.build_eq_cleanK",
+    "Grog.Compose.build_simK",
+    "Grog.Compose.hit_same_stateK",
+    "Grog.Compose.build_eq_clean_real",
+    "Grog.Compose.cacheSound_preserved_real",
 ]
+PROP_MODULES = ["GrogModel.Props.C01", "GrogModel.Props.ComposeBuild"]
 ASSUMPTIONS = [
-    "cache key injective on key-states (C09, repaired by f3e7529), output-hash computations injective (C09.outHash_inj)",
+    "strict layer (Grog.C01.*): cache key injective on all key-states; real-key layer (Grog.Compose.*_real): key = Hash.key H o render, "
+    "from C09.key_eq_iff under RealKey: H injective without '_' in digests, printed output hashes < 2^64 bytes, the command's result depends on "
+    "the command text, the set of (input path, content) pairs and the multiset of dependency output hashes only; sizes < 2^64, distinct fingerprint keys",
     "restore writes exactly the stored value (C06); parent-directory deletion of cached file outputs is left out of the generators until F-mkdir is repaired (agent stores)",
     "builds are atomic per-target steps in a topological order (C03/C11)",
     "generated commands are deterministic functions of declared inputs and dependency outputs (the property's premise)",
 ]
 
-FAMILIES_QUICK = [("edits", 5), ("alias", 4), ("shift", 3), ("tamper", 4), ("dirs", 6), ("swap", 5), ("shared", 5), ("wipe", 3), ("taint", 2), ("disabled", 3), ("nocache", 2)]
+FAMILIES_QUICK = [("edits", 4), ("alias", 3), ("shift", 3), ("tamper", 4), ("dirs", 6), ("swap", 5), ("shared", 5), ("wipe", 3), ("taint", 2), ("disabled", 3), ("nocache", 2)]
 FAMILIES_THOROUGH = [(f, n * 18) for f, n in FAMILIES_QUICK]
 
 
